@@ -6,7 +6,7 @@ From Coquelicot Require Import Coquelicot.
 From Cheetah Require Import Base.Mat Optics.Maps Optics.Sympl Optics.SymplProofs Bmadx.SymplX
   Optics.UndFixed Optics.UndFixedSympl
   Bmadx.DriftX Bmadx.Tdc Bmadx.QuadX Bmadx.QuadXProofs Bmadx.BendX Bmadx.BendXJac Bmadx.BendXFlow
-  Bmadx.SymplXJac Bmadx.SymplXQuad Bmadx.SymplXBend.
+  Bmadx.SymplXJac Bmadx.SymplXQuad Bmadx.SymplXBend Bmadx.SymplXTdc.
 Open Scope R_scope.
 
 (** what "symplectic" means here: M^T S6 M = S6 on the 6x6 linear part, with
@@ -321,6 +321,27 @@ Example C03_sector_nonvacuous : forall g th L p0c m y z, g <> 0 -> 0 < m -> 0 < 
               /\ symplectic_wrt S6plus (sect_jac g th dzc (mkb 0 0 y 0 z 0)).
 Proof. exact sect_nonvacuous. Qed.
 
+(** TransverseDeflectingCavity._track_bmadx, the RF kick (model Bmadx/Tdc.v): in the canonical pairs (x,px), (zeta = z/beta, eps = E/p0c)
+    it is  px += dV/dx, eps += dV/dzeta, x and zeta unchanged, V = volt x sin(2 pi (phi0 + zeta f/c)): the gradient of one potential *)
+Theorem C03_tdc_kick_canonical : forall V phi0 f cl p0c m, 0 < p0c -> 0 < m -> cl <> 0 -> forall q,
+  0 < 1 + bpz q -> m < k_Enew V phi0 f cl p0c m (bx q) (bz q) (bpz q) ->
+  let q' := tdc_kick V phi0 f cl p0c m q in
+  let zeta := bz q / k_beta p0c m (bpz q) in
+  let psi := 2 * PI * (phi0 + zeta * f / cl) in
+  bx q' = bx q /\ by_ q' = by_ q /\ bpy q' = bpy q /\
+  bpx q' = bpx q + V / p0c * sin psi /\
+  k_Eold p0c m (bpz q') / p0c = k_Eold p0c m (bpz q) / p0c + V / p0c * (2 * PI * f / cl) * bx q * cos psi /\
+  bz q' / k_beta p0c m (bpz q') = zeta /\ 0 < 1 + bpz q'.
+Proof. exact tdc_kick_canonical. Qed.
+(* cross derivatives d(px kick)/dzeta = d(eps kick)/dx = volt krf cos psi, so the Jacobian in (x,px,y,py,zeta,eps) is the kick matrix below;
+   (z,pz) -> (zeta,eps) has the longitudinal block [[1/beta, *],[0, beta]] (d eps/d pz = beta: SymplXTdc.d_eps_dpz), determinant +1; hence any
+   Jacobian Jb in Bmad coordinates tied to it by the chain rule is symplectic *)
+Theorem C03_tdc_kick_symplectic : forall volt krf x psi Jb bin sin_ bout sout, bin <> 0 -> bout <> 0 ->
+  rmmul (lin6 (long_change (1 / bout) sout 0 bout)) (lin6 Jb)
+  = rmmul (lin6 (kick 0 0 (volt * krf * cos psi) 0 0 (- (volt * krf * krf * x * sin psi)))) (lin6 (long_change (1 / bin) sin_ 0 bin)) ->
+  symplectic_wrt S6plus Jb.
+Proof. exact tdc_bmad_sympl. Qed.
+
 Print Assumptions C03_symplectic_means.
 Print Assumptions C03_form.
 Print Assumptions C03_affine_means.
@@ -388,3 +409,5 @@ Print Assumptions C03_bmadx_cheetah_symplectic.
 Print Assumptions C03_quadx_nonvacuous.
 Print Assumptions C03_quadx_step_symplectic_everywhere.
 Print Assumptions C03_sector_nonvacuous.
+Print Assumptions C03_tdc_kick_canonical.
+Print Assumptions C03_tdc_kick_symplectic.
